@@ -15,10 +15,14 @@ NA = {
  "C20":"single-caller call sequences on one value; no schedule, clock, stream, fault or second party",
 }
 PENDING = {
- "C04":"check under construction in this session (hostile scenario)",
 }
 TECH = "deterministic simulation with fault injection"
 CLAIMED = {
+ "C04": dict(cat="exploration",
+   text="fault clause of the property only: valid encodings produced by the library are altered the way a faulty transport or a flipped stored byte alters them and (a) arrive at live client/server connections from a hostile raw peer inside the simulator, (b) are served to every decoding entry point through a short-reading, failing reader; for encodings up to 320 bytes every single-bit flip, every 2/4-byte position x special value and every truncation is tried; oracle: no panic, every call returns within a real-time watchdog, nothing stays blocked after the peer left",
+   ref="DESIGN.md §5 C04",
+   note="'all byte strings' is not claimed, only alterations of valid encodings; single allocations above 64 MiB requested by hostile counts are refused by an allocation guard in the instrumented copy and not judged (memory exhaustion is not in the statement; the sandbox has no per-process memory limit); part (b) runs the decoders without the scheduler (nothing to interleave)",
+   tech=TECH+" (hostile peer and in-flight corruption against live connections; faulty-reader fault enumeration over every decoding entry point)"),
  "C03": dict(cat="exploration",
    text="writer and reader tasks over a simulated connection with back-pressure, latency and short reads: 1-40 generated frames of every kind written back-to-back and decoded until EOF by three decoding routes; declared lengths checked against the tapped bytes, an independent splitter by declared length, exact consumption at every frame boundary, and no party left waiting for bytes that never come",
    ref="DESIGN.md §5 C03",
